@@ -220,6 +220,31 @@ def build_harness(which):
         ]
         main = b.obj(H(which + ".cpp"), [], rh + vh, "-O1")
         return b.link(which, [main, host, hexo] + tools)
+    if which == "realhextb":
+        # hextb as the repository builds it (guard off, real main) on the tb model, for the C06 second layer.
+        d, mo = b.model_objs("tb")
+        mh = sorted(glob.glob(d + "/*.h"))
+        flags = [f for f in BASE_FLAGS if f != "-DHEX_VERIF"]
+        cmd = [CXX] + flags + ["-O1", "-I" + d, "-c", os.path.join(REPO, "hextb.cpp")]
+        key = sha("cc-real", " ".join(cmd), files_hash([os.path.join(REPO, "hextb.cpp")] + rh + mh))
+        obj = os.path.join(BUILD, "obj", key + ".o")
+        if not os.path.exists(obj):
+            b.flush()
+            run(cmd + ["-o", obj])
+        touch(obj)
+        hexreal = os.path.join(BUILD, "obj", sha("cc-real-hex", files_hash([os.path.join(REPO, "hex.cpp")] + rh)) + ".o")
+        if not os.path.exists(hexreal):
+            run([CXX] + flags + ["-O1", "-c", os.path.join(REPO, "hex.cpp"), "-o", hexreal])
+        touch(hexreal)
+        rt = b.verilated_runtime(trace=True)
+        b.flush()
+        objs = [obj, hexreal] + mo + rt
+        keyl = sha("link-real", "hextb", " ".join(sorted(objs)))
+        exe = os.path.join(BUILD, "bin", "realhextb-" + keyl)
+        if not os.path.exists(exe):
+            run([CXX, "-o", exe] + objs + ["-pthread"])
+        touch(exe)
+        return exe
     if which == "realtools":
         # The four executables as the repository builds them (guard off, real main), for the
         # second-layer cross-checks of C14/C11.  Returns the directory holding them.
